@@ -1,12 +1,12 @@
 package main
 
 import (
-	"crypto/ecdsa"
-	ethkittypes "github.com/meshplus/eth-kit/types"
 	"bytes"
+	"crypto/ecdsa"
 	"encoding/base64"
 	"encoding/json"
 	"fmt"
+	ethkittypes "github.com/meshplus/eth-kit/types"
 	"math/big"
 	"math/rand"
 	"os"
